@@ -97,19 +97,13 @@ Theorem C33_trim_prefix_width_wcwidth : forall t n,
 Proof. exact trim_prefix_width_wcwidth. Qed.
 Print Assumptions C33_trim_prefix_width_wcwidth.
 
-(* FULL STATEMENT (false for the code as it is, see C33_trim_normal_refuted):
-     forall t n, Normal t -> Normal (trim_text t n).
-   Proved instead: the result is normal once a trailing empty segment is dropped
-   (which is exactly the proposed repair). *)
-Theorem C33_trim_normal_partial : forall (ofb : bytes -> Z) (trimb : bytes -> Z -> bytes) t n,
-  Normal t -> Normal (drop_empty_last (trim_text_g ofb trimb t n)).
-Proof. exact trim_normal_partial. Qed.
-Print Assumptions C33_trim_normal_partial.
-
-Theorem C33_trim_normal_refuted :
-  exists t n, normalb t = true /\ 0 <= n /\ normalb (trim_text t n) = false.
-Proof. exact trim_normal_refuted. Qed.
-Print Assumptions C33_trim_normal_refuted.
+(* TrimWcwidth keeps the normal form (after the repair
+   checks/C33.fixes/trim-budget-ends-at-segment-start.diff), for any width and
+   trimming functions whatsoever *)
+Theorem C33_trim_normal : forall (ofb : bytes -> Z) (trimb : bytes -> Z -> bytes) t n,
+  Normal t -> Normal (trim_text_g ofb trimb t n).
+Proof. exact trim_normal. Qed.
+Print Assumptions C33_trim_normal.
 
 (* Restyling keeps content and segment count *)
 Theorem C33_restyle_content : forall t ts,
@@ -117,8 +111,9 @@ Theorem C33_restyle_content : forall t ts,
 Proof. exact restyle_content. Qed.
 Print Assumptions C33_restyle_content.
 
-(* FULL STATEMENT (false, see C33_restyle_normal_refuted and C33_restyle_nil_refuted):
-     forall t ts, Normal t -> Normal (style_text t ts)  and  StyleText nil = nil.
+(* FULL STATEMENT (false, see C33_restyle_normal_refuted; the behaviour is pinned by
+   the existing test pkg/ui TestStyleText "Multiple segments", so it stays a finding):
+     forall t ts, Normal t -> Normal (style_text t ts).
    Proved instead: normal form is kept by every styling that does not identify
    two different styles, e.g. any sequence of toggles. *)
 Theorem C33_restyle_normal_partial : forall t ts,
@@ -138,10 +133,10 @@ Theorem C33_restyle_normal_refuted :
 Proof. exact restyle_normal_refuted. Qed.
 Print Assumptions C33_restyle_normal_refuted.
 
-Theorem C33_restyle_nil_refuted :
-  exists ts, forallb res_normal (run_op (OpStyleText [] ts)) = false.
-Proof. exact restyle_nil_refuted. Qed.
-Print Assumptions C33_restyle_nil_refuted.
+(* StyleText of the empty text is nil (repair checks/C33.fixes/restyle-empty-text.diff) *)
+Theorem C33_restyle_nil : forall ts, run_op (OpStyleText [] ts) = [(true, [])].
+Proof. exact restyle_nil. Qed.
+Print Assumptions C33_restyle_nil.
 
 (* Text.Concat / RConcat go through the builder *)
 Theorem C33_text_concat_text_normal : forall t t2,
@@ -162,27 +157,37 @@ Theorem C33_text_rconcat_str_normal : forall lhs t,
 Proof. exact text_rconcat_str_normal. Qed.
 Print Assumptions C33_text_rconcat_str_normal.
 
-(* FULL STATEMENT (false, see C33_text_concat_segment_refuted):
-     forall t sg, Normal t -> Normal (text_concat_seg t sg).
-   Proved instead: for segments with a non-empty text. *)
-Theorem C33_text_concat_segment_partial : forall t sg,
-  Normal t -> snd sg <> [] ->
+(* Text.Concat with ANY Segment, also one with an empty text
+   (repair checks/C33.fixes/text-concat-empty-segment.diff) *)
+Theorem C33_text_concat_segment_normal : forall t sg,
+  Normal t ->
   Normal (text_concat_seg t sg) /\ content (text_concat_seg t sg) = content t ++ snd sg.
-Proof. exact text_concat_seg_partial. Qed.
-Print Assumptions C33_text_concat_segment_partial.
+Proof. exact text_concat_seg_normal. Qed.
+Print Assumptions C33_text_concat_segment_normal.
 
-Theorem C33_text_concat_segment_refuted :
-  exists t sg, normalb t = true /\ normalb (text_concat_seg t sg) = false.
-Proof. exact text_concat_segment_refuted. Qed.
-Print Assumptions C33_text_concat_segment_refuted.
+(* Segment.Concat / RConcat (repair checks/C33.fixes/segment-concat-empty-or-same-style.diff):
+   for ANY segment (empty text, any style) the result is normal and has the
+   concatenated content *)
+Theorem C33_segment_concat_str_normal : forall sg rhs,
+  Normal (seg_concat_str sg rhs) /\ content (seg_concat_str sg rhs) = snd sg ++ rhs.
+Proof. exact seg_concat_str_normal. Qed.
+Print Assumptions C33_segment_concat_str_normal.
 
-(* FULL STATEMENT (false): forall sg rhs, Normal (seg_concat_str sg rhs) — and the
-   same for Segment+Segment, Segment+Text, string+Segment: the Text is built
-   literally, without the builder. *)
-Theorem C33_segment_concat_normal_refuted :
-  exists sg rhs, snd sg <> [] /\ rhs <> [] /\ normalb (seg_concat_str sg rhs) = false.
-Proof. exact segment_concat_normal_refuted. Qed.
-Print Assumptions C33_segment_concat_normal_refuted.
+Theorem C33_segment_concat_seg_normal : forall sg sg2,
+  Normal (seg_concat_seg sg sg2) /\ content (seg_concat_seg sg sg2) = snd sg ++ snd sg2.
+Proof. exact seg_concat_seg_normal. Qed.
+Print Assumptions C33_segment_concat_seg_normal.
+
+Theorem C33_segment_concat_text_normal : forall sg t,
+  Normal t ->
+  Normal (seg_concat_text sg t) /\ content (seg_concat_text sg t) = snd sg ++ content t.
+Proof. exact seg_concat_text_normal. Qed.
+Print Assumptions C33_segment_concat_text_normal.
+
+Theorem C33_segment_rconcat_str_normal : forall lhs sg,
+  Normal (seg_rconcat_str lhs sg) /\ content (seg_rconcat_str lhs sg) = lhs ++ snd sg.
+Proof. exact seg_rconcat_str_normal. Qed.
+Print Assumptions C33_segment_rconcat_str_normal.
 
 (* non-vacuity *)
 From Coq Require Import Strings.String.
@@ -191,7 +196,12 @@ Example C33_oracle_accepts_partition :
   check_C33 o (run_op o) = true.
 Proof. exact oracle_accepts_partition. Qed.
 
-Example C33_oracle_rejects_trim_witness :
+Example C33_oracle_rejects_old_trim_result :
+  check_C33 (OpTrim [(sBold, hx "61"%string); (style0, hx "e4b8ad"%string)] 2)
+            [(false, [(sBold, hx "61"%string); (style0, [])])] = false.
+Proof. exact oracle_rejects_old_trim_result. Qed.
+
+Example C33_oracle_accepts_trim :
   let o := OpTrim [(sBold, hx "61"%string); (style0, hx "e4b8ad"%string)] 2 in
-  check_C33 o (run_op o) = false.
-Proof. exact oracle_rejects_trim_witness. Qed.
+  check_C33 o (run_op o) = true.
+Proof. exact oracle_accepts_trim. Qed.
